@@ -56,6 +56,9 @@ static void print_case(const char *which, const uint8_t *t, const uint8_t *p, in
         printf("]}\n");
 }
 
+static int masks_ready = 0;   /* bpm.h: set_broadcast_mask() must be called before bpm_256; bpm_block and bpm have no such precondition */
+static long n_before_mask;
+
 static void check(const uint8_t *t, const uint8_t *p, int n, int m)
 {
         int mm = m > 1024 ? 1024 : m;
@@ -63,6 +66,18 @@ static void check(const uint8_t *t, const uint8_t *p, int n, int m)
         int g = bpm_block(t, p, n, m);
         int g2 = -1, g3 = -1;
         if (m <= 63) g2 = bpm(t, p, n, m);
+        if (!masks_ready) {
+                /* first part of every run: the mask table of the 256-bit kernel has not been initialised yet */
+                pthread_mutex_lock(&cmu);
+                n_block++; n_before_mask++;
+                { int nb0 = (mm + 63) / 64; per_blocks[nb0 < 19 ? nb0 : 19]++; }
+                if (m > 1024) n_capped++;
+                if (e) n_nonzero++; else n_zero++;
+                if (e != g) { bad_block++; print_case("bpm_block", t, p, n, m, e, g); }
+                if (m <= 63) { n_64++; if (g2 != e) { bad_64++; print_case("bpm", t, p, n, m, e, g2); } }
+                pthread_mutex_unlock(&cmu);
+                return;
+        }
 #ifdef HAVE_AVX2
         if (m <= 255) g3 = bpm_256(t, p, n, m);
 #endif
@@ -186,10 +201,20 @@ static void exhaustive(int sig, int nmax)
 int main(int argc, char **argv)
 {
         if (argc < 2) return 2;
+        const char *mode = argv[1];
+        if (!strcmp(mode, "rand") && (argc <= 4 || atoi(argv[4]) <= 1)) {
+                /* a fifth of the cases before the mask table exists (fresh process, as in the first kalign run of a process) */
+                long N0 = atol(argv[2]) / 5;
+                uint64_t keep = st;
+                st ^= ((uint64_t)atoll(argv[3]) + 77) * 0x9E3779B97F4A7C15ULL;
+                if (!st) st = 1;
+                for (long it = 0; it < N0; it++) gen_case(it);
+                st = keep;
+        }
 #ifdef HAVE_AVX2
         set_broadcast_mask();
 #endif
-        const char *mode = argv[1];
+        masks_ready = 1;
         if (!strcmp(mode, "rand")) {
                 long N = atol(argv[2]);
                 int nthr = argc > 4 ? atoi(argv[4]) : 1;
@@ -218,8 +243,8 @@ int main(int argc, char **argv)
                 check(t, p, n, m);
         } else return 2;
         printf("{\"rec\":\"summary\",\"mode\":\"%s\",\"pairs\":%ld,\"bad_block\":%ld,\"n64\":%ld,\"bad64\":%ld,\"n256\":%ld,\"bad256\":%ld,"
-               "\"capped\":%ld,\"dist_zero\":%ld,\"dist_nonzero\":%ld,\"avx2\":%d,\"per_blocks\":[",
-               mode, n_block, bad_block, n_64, bad_64, n_256, bad_256, n_capped, n_zero, n_nonzero,
+               "\"capped\":%ld,\"dist_zero\":%ld,\"dist_nonzero\":%ld,\"before_mask\":%ld,\"avx2\":%d,\"per_blocks\":[",
+               mode, n_block, bad_block, n_64, bad_64, n_256, bad_256, n_capped, n_zero, n_nonzero, n_before_mask,
 #ifdef HAVE_AVX2
                1
 #else
